@@ -497,7 +497,13 @@ def merged_pair(pname, cur):
 
 
 def removed_summary(removed):
-    """(op kinds, type class) of the ops a pass removed: constants only count when nothing else was removed."""
+    """(op kinds, type class) of the ops a pass removed, most telling kinds first: control-flow / effect ops if
+    any were removed (then arith ops are noise), else the arith ops; constants only count when nothing else
+    was removed."""
+    special = sorted({o.name for o in removed if not o.name.startswith("arith.")
+                      and o.name not in ("scf.yield", "scf.condition")})
+    if special:
+        return ("+".join(special) if len(special) <= 3 else "many"), "-"
     names = sorted({o.name for o in removed if o.name != "arith.constant"})
     pool = [o for o in removed if o.name != "arith.constant"]
     if not names:
